@@ -66,17 +66,26 @@ func dbData(i int) []byte {
 		return []byte{0x01}
 	case 13:
 		return mk(20, 0x66)
+	case 14:
+		// PEM as tools emit it: explanatory text in front of the armour (RFC 7468 section 2: parsers ignore it)
+		return append([]byte("Bag Attributes\n    friendlyName: sim A\nsubject=O = verif sim, CN = sim A\n"), p[0].CertPEM...)
+	case 15:
+		// a leading blank line and indentation-free whitespace before the block
+		return append([]byte("\n  \n"), p[1].CertPEM...)
+	case 16:
+		// text behind the block
+		return append(append([]byte(nil), p[7].CertPEM...), "\ntrailing remark\n"...)
 	}
 	harnessf("dbhist: data index %d", i)
 	return nil
 }
 
-const dbNData = 14
+const dbNData = 17
 
 // compatible data indices per type index
 var dbCompat = [][]int{
 	{0, 1, 2, 3, 0, 1, 2, 4, 5}, // SHA256, with the two wrong-size values
-	{6, 7, 8, 9, 10, 11},
+	{6, 7, 8, 9, 10, 11, 6, 7, 8, 9, 10, 11, 14, 15, 16},
 	{12},
 	{13},
 	{0, 6, 12},
@@ -87,10 +96,13 @@ func dbNorm(t, d int) []byte {
 	if t == 1 && d >= 9 && d <= 11 {
 		return dbData(d - 3)
 	}
+	if t == 1 && d >= 14 && d <= 16 {
+		return dbData(d - 8)
+	}
 	return dbData(d)
 }
 
-func dbIsPEM(t, d int) bool { return t == 1 && d >= 9 && d <= 11 }
+func dbIsPEM(t, d int) bool { return t == 1 && (d >= 9 && d <= 11 || d >= 14 && d <= 16) }
 
 type dbItem struct {
 	O int `json:"o"`
